@@ -7,6 +7,18 @@ VERIF = os.path.dirname(os.path.dirname(os.path.abspath(__file__)))
 props = [json.loads(l) for l in open(os.path.join(VERIF, "properties.jsonl"))]
 
 CLAIMED = {
+    "C18": dict(
+        category="proof",
+        text="Closed theorems over tables regenerated from integrations/latex.py on every run: every port direction (input, output, "
+             "through) has a section, input parameters have a section, and -- given the generated fallback flag -- no non-empty name "
+             "makes the name formatting raise; without the fallback exactly the names with an empty part around the first underscore "
+             "raise. The streams render every identifier up to length 3 over {x,_,1} in every role, and random hierarchies with their "
+             "compiled forms, in all four modes (with/without subroutine resources, paged/unpaged) and compare the number of entries "
+             "per section with the document. Partial: sympy's latex() on expressions is an oracle; entry typography is not modelled.",
+        design_ref="DESIGN.md section 5 C18",
+        note="Trusted: Coq kernel; translator (SECTIONS table, port getters, fallback guard; fail-closed); sympy latex.",
+        technique="Coq theorems over translator-generated rendering tables + exhaustive short-name and hierarchy rendering stream",
+    ),
     "C13": dict(
         category="translation_validation",
         text="Round-trip validation per document: the real code exports each generated routine (uncompiled and compiled), the export "
